@@ -90,6 +90,13 @@ theorem peek_refines {c : Cfg} (hk : c.kind.positional = true) {s : St} {ss : SS
   case lifo => simp [List.getLast?_map]
   case adaptive => split <;> simp [List.head?_map, List.getLast?_map]
 
+theorem query_refines {c : Cfg} (hk : c.kind.positional = true) {s : St} {ss : SSt} (h : Rel s ss) (now f : Nat) :
+    query c s now f = sQuery c ss now f := by
+  obtain ⟨held, act, clock, acc, deq, drp⟩ := ss
+  simp only [Rel] at h; subst h
+  unfold query sQuery
+  cases hkk : c.kind <;> simp [Kind.positional, hkk] at hk <;> simp
+
 theorem step_refines {c : Cfg} (hk : c.kind.positional = true) {s : St} {ss : SSt} (h : Rel s ss) (o : Op) :
     (step c s o).2 = (sStep c ss o).2 ∧ Rel (step c s o).1 (sStep c ss o).1 := by
   cases o with
@@ -100,6 +107,13 @@ theorem step_refines {c : Cfg} (hk : c.kind.positional = true) {s : St} {ss : SS
     have := pop_refines hk h now k
     exact ⟨by simp [step, sStep, this.1], this.2⟩
   | peek now => exact ⟨by simp [step, sStep, peek_refines hk h now], h⟩
+  | purge now =>
+    have hp : purge c s now = (s, 0) := by
+      unfold purge; cases hkk : c.kind <;> simp [Kind.positional, hkk] at hk <;> rfl
+    have hs : sPurge c ss now = (ss, 0) := by
+      unfold sPurge; cases hkk : c.kind <;> simp [Kind.positional, hkk] at hk <;> rfl
+    exact ⟨by simp [step, sStep, hp, hs], by simpa [step, sStep, hp, hs] using h⟩
+  | query now f => exact ⟨by simp [step, sStep, query_refines hk h now f], h⟩
 
 /-- the model's answers are the list specification's answers, operation for operation -/
 theorem run_refines {c : Cfg} (hk : c.kind.positional = true) : ∀ (ops : List Op) (s : St) (ss : SSt), Rel s ss →
